@@ -361,6 +361,132 @@ def run_simple(c, binary, cases):
     return allobs, corr_bad, mon_bad, model_mon_bad
 
 
+# ----------------------------------------------------------------------------- BLS combination index
+BLS_HEAD = """From Coq Require Import List NArith ZArith String Bool.
+From GV Require Import Base.Ints Model.CombIndex.
+Import ListNotations. Local Open Scope N_scope.
+Definition o2r (o : option N) (r : res N) : bool :=
+  match o, r with Some a, Ok b => N.eqb a b | None, Panic _ => true | _, _ => false end.
+Definition encs : list (N * ((Z * N) * option N)) := [%s].
+Definition decs : list (N * ((Z * (Z * N)) * option N)) := [%s].
+Definition enc_bad := Eval vm_compute in
+  map fst (filter (fun c => let '(_, ((n, b), o)) := c in negb (o2r o (encode_mask n b))) encs).
+Definition dec_bad := Eval vm_compute in
+  map fst (filter (fun c => let '(_, ((n, (k, idx)), o)) := c in negb (o2r o (decode n k idx))) decs).
+Print enc_bad. Print dec_bad.
+"""
+
+
+def py_rank(n, S):
+    from math import comb
+    k, prev, out = len(S), -1, 0
+    for i in sorted(S):
+        for j in range(prev + 1, i):
+            out += comb(n - j - 1, k - 1)
+        prev = i
+        k -= 1
+    return out
+
+
+def run_bls(c):
+    """combination index: real Go functions vs Model/CombIndex.v (in coqc) vs the combinatorial-number-system spec."""
+    from math import comb
+    rng = c.rng
+    binary, blog = c.go_build("c13bls")
+    if binary is None:
+        c.fail_obligation("harness-build-bls", blog[-1500:])
+        return {}
+    n_each = 150 if c.tier == "quick" else 5000
+    lines, meta = [], []
+    for _ in range(n_each):
+        n = 1 + rng.below(40) if rng.chance(3, 4) else 1 + rng.below(8)
+        S = [i for i in range(n) if rng.chance(1 + rng.below(3), 4)]
+        mask = sum(1 << i for i in S)
+        stray = rng.chance(1, 25)
+        if stray:
+            mask |= 1 << (n + rng.below(3))
+        lines.append("enc %d %d" % (n, mask))
+        meta.append(("enc", n, S, mask, stray))
+    for _ in range(n_each):
+        n = 1 + rng.below(40) if rng.chance(3, 4) else 1 + rng.below(8)
+        kind = rng.below(10)
+        k = 1 + rng.below(n)
+        idx = rng.below(comb(n, k))
+        if kind == 0:
+            k = 0
+            idx = rng.below(5)
+        elif kind == 1:
+            k = n + 1 + rng.below(3)
+        elif kind == 2:
+            idx = comb(n, k) + rng.below(4)
+        elif kind == 3:
+            idx = rng.choice([0, comb(n, k) - 1])
+        lines.append("dec %d %d %d" % (n, k, idx))
+        meta.append(("dec", n, k, idx))
+    for _ in range(60 if c.tier == "quick" else 600):
+        n = 1 + rng.below(12)
+        kind = rng.below(8)
+        k = 1 + rng.below(n)
+        idx = rng.below(comb(n, k))
+        if kind == 0:
+            k = 0
+        elif kind == 1:
+            idx = comb(n, k) + rng.below(300)
+        elif kind == 2:
+            k = n + 1
+        idb = [k >> 8, k & 255] + (list(idx.to_bytes((idx.bit_length() + 7) // 8, "big")) if idx else [])
+        if kind == 3:
+            idb = idb[:rng.below(2)]
+        lines.append("vfp %d %s" % (n, ",".join(str(x) for x in idb) or "-"))
+        meta.append(("vfp", n, idb))
+    rc, out, err = c.run_bin(binary, stdin="\n".join(lines) + "\n")
+    res = out.split("\n")[:len(lines)]
+    if rc != 0 or len(res) != len(lines):
+        c.fail_obligation("harness-run-bls", "rc=%d, %d of %d results: %s" % (rc, len(res), len(lines), err[-500:]))
+        return {}
+    encs, decs, spec_bad, vfp_panics = [], [], [], []
+    for i, (m, r) in enumerate(zip(meta, res)):
+        o = "None" if r == "P" else "(Some %s)" % r
+        if m[0] == "enc":
+            encs.append("(%d, ((%d%%Z, %d), %s))" % (i, m[1], m[3], o))
+            if not m[4]:
+                want = py_rank(m[1], m[2])
+                if r == "P" or int(r) != want or not (want < comb(m[1], len(m[2]))):
+                    spec_bad.append((i, lines[i], r, want))
+        elif m[0] == "dec":
+            decs.append("(%d, ((%d%%Z, (%d%%Z, %d)), %s))" % (i, m[1], m[2], m[3], o))
+            n, k, idx = m[1], m[2], m[3]
+            if 1 <= k <= n and idx < comb(n, k):
+                S = [j for j in range(n) if r != "P" and (int(r) >> j) & 1]
+                if r == "P" or len(S) != k or int(r) >> n or py_rank(n, S) != idx:
+                    spec_bad.append((i, lines[i], r, "the k-subset of rank idx"))
+        else:
+            if r == "P":
+                vfp_panics.append((i, lines[i]))
+    ok, cout = c.coq_eval("c13_bls_cases", BLS_HEAD % (";\n".join(encs), ";\n".join(decs)))
+    corr = []
+    if not ok:
+        c.fail_obligation("cases-eval-bls", cout[-1500:])
+    else:
+        for name in ("enc_bad", "dec_bad"):
+            mm = re.search(name + r"\s*=\s*\[(.*?)\]", cout, flags=re.S)
+            corr += [int(x) for x in re.findall(r"\d+", mm.group(1))] if mm else [-1]
+    for i, line, r, want in spec_bad[:2]:
+        c.report("bls-combindex-" + line.split()[0], "real combination index function disagrees with the combinatorial number system: "
+                 "`%s` returned %s, expected %s" % (line, r, want), {"input": line, "observed": r, "how": "echo '%s' | bin/h_c13bls" % line})
+    for i, line in vfp_panics[:2]:
+        c.report("bls-validate-finalized-panic", "real gblsminsig ValidateFinalizedProof panics on the main key id of `%s`" % line,
+                 {"input": line, "observed": "panic", "how": "echo '%s' | bin/h_c13bls" % line})
+    if corr and not (spec_bad or vfp_panics):
+        c.fail_obligation("correspondence Model/CombIndex.v vs gblsminsig/signatureproofscheme.go",
+                          "model and implementation differ on input lines %s" % [lines[i] for i in corr[:5] if i >= 0],
+                          {"inputs": [lines[i] for i in corr[:5] if i >= 0]})
+    return {"bls_combindex_evaluations": len(lines), "bls_enc": len(encs), "bls_dec": len(decs),
+            "bls_validate_finalized_key_ids": len(lines) - len(encs) - len(decs),
+            "bls_dec_out_of_range_inputs": sum(1 for m in meta if m[0] == "dec" and not (1 <= m[2] <= m[1] and m[3] < comb(m[1], m[2]))),
+            "bls_correspondence_disagreements": len(corr), "bls_spec_failures": len(spec_bad), "bls_validate_panics": len(vfp_panics)}
+
+
 def main(argv):
     c = vcheck.Check("C13", argv)
     c.trusted += [
@@ -369,6 +495,8 @@ def main(argv):
         "Go harness /verif/harness/c13 (real ed25519 keys and signatures; Junk = bytes that verify under no key) and the case "
         "evaluation inside coqc (vm_compute)",
         "bits-and-blooms/bitset v1.20 (Set/Test/Count/IsStrictSuperSet/CopyFull) modelled as N bit masks",
+        "math/big.Binomial = binomial coefficient (Model/CombIndex.v computes Pascal rows); blst group law and pairing check (not modelled)",
+        "Go harness /verif/harness/c13bls using the verif hook gcrypto/gblsminsig/verif_hooks.go (wrappers only)",
     ]
     c.assumes += [
         "ideal signatures (DESIGN 3): a signature value verifies for exactly one (key, message); ed25519 realises Good k m 0",
@@ -394,12 +522,14 @@ def main(argv):
         rp = json.load(open(c.replay))
         cases = [rp["case"]] if "case" in rp else [g.case() for _ in range(50)]
     else:
-        n_cases = 300 if c.tier == "quick" else 6000
+        n_cases = 200 if c.tier == "quick" else 6000
         cases = [g.case() for _ in range(n_cases)]
 
     corr_bad, mon_bad, model_mon_bad, allobs = [], [], [], []
     if tok:
         allobs, corr_bad, mon_bad, model_mon_bad = run_simple(c, binary, cases)
+
+    bls_cov = run_bls(c) if not c.replay or "case" not in json.load(open(c.replay)) else {}
 
     # ------------------------------------------------------------------ verdict
     seen_keys = set()
@@ -459,4 +589,5 @@ def main(argv):
         "correspondence_disagreements": len(corr_bad),
         "monitor_failures_on_impl": len(mon_bad),
     })
+    c.coverage.update(bls_cov)
     c.finish()
